@@ -1106,6 +1106,10 @@ caption_command(vbi_decoder *vbi, struct caption *cc,
 		case 10:	/* Text Restart			001 c10f  010 1010 */
 // not verified
 			ch = switch_channel(cc, ch, chan | 4);
+			/* EIA 608-B Section 7.4: clears the text window. */
+			erase_memory(cc, ch, ch->hidden);
+			erase_memory(cc, ch, ch->hidden ^ 1);
+			clear(ch->pg + (ch->hidden ^ 1));
 			set_cursor(ch, 1, 0);
 			return;
 
